@@ -17,6 +17,13 @@ def prodK (l : List K) : K := l.foldl (· * ·) 1
 /-- harmonic distance of an axis: `1 / (shape * rdistance)` -/
 def hdist (n : Nat) (r : K) : K := (1 : K) / ((n : K) * r)
 
+/-- `RGSpace.__init__`: the position-space distance of an axis from the constructor arguments
+    (`distances=None`: `1/shape`; harmonic space: the given distance is the harmonic one, `rdistance = 1/(shape*distance)`) -/
+def rgRdist (n : Nat) (dist : Option K) (harmonic : Bool) : K :=
+  match dist with
+  | none => (1 : K) / (n : K)
+  | some d => if harmonic then (1 : K) / ((n : K) * d) else d
+
 /-- `StructuredDomain.total_volume` for a scalar volume element -/
 def totalVolumeScalar (size : Nat) (dvol : K) : K := (size : K) * dvol
 
